@@ -116,6 +116,10 @@ def run(ctx):
              ('rs-coarse-jacobi', lambda A: pyamg.ruge_stuben_solver(sp.csr_array(A), coarse_solver=('jacobi', {'iterations': 5}), max_coarse=6), 'sym'),
              ('rootnode-coarse-bgs', lambda A: pyamg.rootnode_solver(A, coarse_solver='block_gauss_seidel', max_coarse=6), 'sym'),
              ('pairwise-default', lambda A: pyamg.pairwise_solver(sp.csr_array(A), max_coarse=4), 'sym'),
+             # no strength measure: the level matrix itself is handed to the interpolation routines as "strength matrix"
+             ('rs-nostrength-direct', lambda A: pyamg.ruge_stuben_solver(sp.csr_array(A), strength=None, interpolation='direct', max_coarse=3), 'sym'),
+             ('rs-nostrength-classical', lambda A: pyamg.ruge_stuben_solver(sp.csr_array(A), strength=None, interpolation='classical', max_coarse=3), 'sym'),
+             ('air-nostrength-direct', lambda A: pyamg.air_solver(sp.csr_array(A), strength=None, interpolation='direct', max_coarse=4), 'nonsym'),
              # smoothers whose weights come from a spectral-radius estimate (random start vector)
              ('sa-jacobi-smoother', lambda A: pyamg.smoothed_aggregation_solver(
                  A, presmoother=('jacobi', {'omega': 4.0 / 3.0}), postsmoother=('jacobi', {'omega': 4.0 / 3.0}), max_coarse=3), 'sym'),
@@ -209,6 +213,62 @@ def run(ctx):
                     ctx.disagree('cache model: attributes created by solving must be modelled caches', case,
                                  sorted(ALLOWED_NEW), {where: sorted(unknown)})
     formats(ctx)
+    candidates(ctx)
+
+
+def candidates(ctx):
+    """the caller's candidate vectors (B, and BH for nonsymmetric problems) come back bit for bit"""
+    import pyamg
+    from pyamg.gallery import poisson, linear_elasticity
+    A = sp.csr_array(poisson((7, 6), format='csr'))
+    n = A.shape[0]
+    rng = ctx.sub('cands')
+    Bz = np.ones((n, 1))
+    Bz[[3, 10, 25], 0] = 0.0                          # a candidate with zero entries (e.g. Dirichlet rows)
+    B2 = np.column_stack([np.ones(n), np.arange(n) % 5 - 2.0])
+    Ae, Be = linear_elasticity((4, 4))
+    Ae = sp.bsr_array(Ae, blocksize=(2, 2))
+    An = hier.nonsym_matrix(6)
+    opts = [('strength=evolution', dict(strength=('evolution', {'k': 2}))), ('strength=evolution/D_A', dict(strength=('evolution', {'k': 2, 'proj_type': 'D_A'}))),
+            ('improve_candidates', dict(improve_candidates=[('gauss_seidel', {'sweep': 'symmetric', 'iterations': 3}), None])),
+            ('improve_candidates/jacobi', dict(improve_candidates=('jacobi', {'iterations': 2}))),
+            ('smooth=energy', dict(smooth=('energy', {'maxiter': 2}))), ('smooth=jacobi/filter', dict(smooth=('jacobi', {'filter_entries': True}))),
+            ('default', {})]
+    for cname, ctor in (('sa', pyamg.smoothed_aggregation_solver), ('rootnode', pyamg.rootnode_solver)):
+        for oname, kw in opts:
+            for pname, M, B, BH in (('poisson/zeros-in-B', A, Bz, None), ('poisson/2-candidates', A, B2, None), ('elasticity', Ae, Be, None),
+                                    ('upwind/B-and-BH', An, np.ones((An.shape[0], 1)), np.ones((An.shape[0], 1)) * 2.0)):
+                Buser = np.array(B, copy=True)
+                BHuser = None if BH is None else np.array(BH, copy=True)
+                kw_ = dict(kw)
+                if BH is not None:
+                    kw_.update(BH=BHuser, symmetry='nonsymmetric')
+                case = dict(constructor=cname, options=oname, problem=pname)
+                ctx.mark(case)
+                np.random.seed(ctx.seed + 4)
+                try:
+                    with warnings.catch_warnings():
+                        warnings.simplefilter('ignore')
+                        ctor(M.copy(), B=Buser, max_coarse=4, **kw_)
+                except Exception as e:   # noqa
+                    ctx.count('candidates-unsupported:%s/%s' % (cname, oname))
+                    continue
+                ctx.case(('candidates', cname, oname, pname), True)
+                ctx.count('candidates:' + oname)
+                if Buser.tobytes() != np.asarray(B).tobytes():
+                    ch = np.argwhere(Buser != np.asarray(B))
+                    ctx.fail('setup-modifies-candidates/%s' % oname, '%s(%s): %d entries of the caller\'s B changed, e.g. B%s: %r -> %r'
+                             % (cname, oname, len(ch), tuple(ch[0]), np.asarray(B)[tuple(ch[0])], Buser[tuple(ch[0])]), case)
+                if BH is not None and BHuser.tobytes() != np.asarray(BH).tobytes():
+                    ctx.fail('setup-modifies-candidates/BH/%s' % oname, '%s(%s): the caller\'s BH changed' % (cname, oname), case)
+    # the strength routine on its own
+    from pyamg.strength import evolution_strength_of_connection
+    Bu = Bz.copy()
+    evolution_strength_of_connection(A, Bu)
+    ctx.case(('candidates', 'evolution_strength_of_connection'), True)
+    if Bu.tobytes() != Bz.tobytes():
+        ctx.fail('setup-modifies-candidates/evolution_strength_of_connection', 'zero entries of the caller\'s B were overwritten: %s -> %s'
+                 % (Bz[[3, 10, 25], 0].tolist(), Bu[[3, 10, 25], 0].tolist()), dict(routine='evolution_strength_of_connection'))
 
 
 def formats(ctx):
@@ -220,14 +280,18 @@ def formats(ctx):
     variants = [('float64', P0, np.ones((30, 1))),
                 ('float32', sp.csr_array(P0.astype(np.float32)), np.ones((30, 1), dtype=np.float32)),
                 ('complex128', sp.csr_array(sp.diags_array(u_) @ P0 @ sp.diags_array(u_.conj())), u_.reshape(-1, 1).copy())]
+    # explicitly STORED zeros (what setdiag / in-place filtering leaves behind): the sparse formats that can carry them must agree
+    Pz = P0.copy()
+    Pz.data[[2, 9, 17, 40, 41, 77]] = 0.0
+    variants.append(('float64/stored-zeros', Pz, np.ones((30, 1))))
     for vname, P, B in variants:
       for bname, f in (('classical', lambda M: pyamg.ruge_stuben_solver(M, max_coarse=3)),
-                       ('sa', lambda M: pyamg.smoothed_aggregation_solver(M, B=B.copy(), max_coarse=3)),
-                       ('rootnode', lambda M: pyamg.rootnode_solver(M, B=B.copy(), max_coarse=3)),
+                       ('sa', lambda M: pyamg.smoothed_aggregation_solver(M, B=B, max_coarse=3)),
+                       ('rootnode', lambda M: pyamg.rootnode_solver(M, B=B, max_coarse=3)),
                        ('pairwise', lambda M: pyamg.pairwise_solver(M, max_coarse=3)),
                        ('air', lambda M: pyamg.air_solver(M, max_coarse=3))):
           ref = None
-          for fmt in ('csr', 'csc', 'coo', 'lil', 'dia', 'bsr', 'dense', 'csr-unsorted'):
+          for fmt in (('csr', 'csc', 'coo', 'lil', 'dia', 'bsr', 'dense', 'csr-unsorted') if not vname.endswith('stored-zeros') else ('csr', 'csc', 'coo')):
               if fmt == 'csr-unsorted':
                   from .. import gen as _gen
                   M = _gen.unsorted_copy(P, ctx.sub('unsorted-' + bname))       # CSR with shuffled column order in each row
